@@ -120,8 +120,8 @@ type c06World struct {
 	targets []TargetConfig
 	tIdx    map[string]int
 
-	tCalls     []int            // Deliver calls per target (script position)
-	curAttempt map[string]int   // attempt number of the current lease of a message
+	tCalls     []int             // Deliver calls per target (script position)
+	curAttempt map[string]int    // attempt number of the current lease of a message
 	leaseMsg   map[string]string // lease id -> message id
 	pending    map[string]*c06Call
 	calls      map[string][]*c06Call
